@@ -12,7 +12,7 @@ from .core import Ctx, Infra, casehash, log
 # (one mechanism dropped) has a counterexample that is pinned here
 SAFE = ["as_built", "settings_shared", "settings_toggled"]
 UNSAFE = ["default_aliased", "route_shared", "settings_shared_toggled", "registry_lazy", "typeinfos_unlocked",
-          "pattern_cache_plain", "uricache_unlocked", "unique_nil", "writers_included"]
+          "pattern_cache_plain", "uricache_unlocked", "unique_lazy", "writers_included"]
 
 
 def _design_checks(ctx):
